@@ -502,7 +502,9 @@ def layouts_for(shape, bcmask, swap_ok, rng, n_random):
         if p != ident:
             add(perm=p)
             add(order="F", perm=p)
-    for i in range(nd):
+    # (arrays that are constant along some axes exist for the broadcast layouts below: the strided
+    # products have already been run on the unconstrained arrays of the same shape)
+    for i in range(nd if not any(bcmask) else 0):
         add(rev=unit(i))
         add(step=unit(i, 1))
         add(step=unit(i, 2))
@@ -511,7 +513,7 @@ def layouts_for(shape, bcmask, swap_ok, rng, n_random):
             if p != ident:
                 add(perm=p, step=unit(i, 1))
                 add(perm=p, rev=unit(i))
-    if nd > 1:
+    if nd > 1 and not any(bcmask):
         add(rev=[True] * nd)
         add(step=[1] * nd)
         add(step=[2] * nd, rev=[True] * nd)
@@ -643,9 +645,9 @@ class Layouts(Family):
         modes = self.CAT_MODES if tier == "thorough" else self.CAT_MODES[:3] + [self.CAT_MODES[3 + k % 4]]
         for j, (cp, od) in enumerate(modes):
             yield ["cat", dts[(k + j) % len(dts)], shape, vals, lay, [cp, od]]
-        for touch in ((0, 1, 2, 3) if tier == "thorough" else (k % 4, (k + 1) % 4)):
+        for touch in ((0, 1, 2, 3) if tier == "thorough" else (k % 4,)):
             yield ["der", "U1" if (k + touch) % 3 else "i8", shape, vals, lay, [[], touch, self.DER_POST[(k + touch) % 5]]]
-        item_sets = [cats, cats + [123, 125], cats[1:], cats[::-1]]
+        item_sets = [cats, cats + [200, 201], cats[1:], cats[::-1]]
         for j in ((0, 1, 2, 3) if tier == "thorough" else (k % 4, (k + 2) % 4)):
             yield ["look", "U1" if (k + j) % 2 else "i8", shape, vals, lay, item_sets[j]]
         yield ["unb", "i8" if k % 2 else "U1", shape, vals, lay, None]
@@ -657,8 +659,7 @@ class Layouts(Family):
             ps = partners[j]
             yield ["bam", "i8", shape, vals, lay, [ps, list(range(int(np.prod(ps))))]]
         yield ["sorted", "i8" if k % 2 else "U1", shape, vals, lay, None]
-        if True:
-            yield ["coerce", "U3", shape, [v - 97 if (v + k) % 4 else -1 for v in vals], lay, None]
+        yield ["coerce", "U3", shape, [v - 97 if (v + k) % 4 else -1 for v in vals], lay, None]
 
     def cases(self, tier, rng):
         k = 0
@@ -805,7 +806,8 @@ PROP = Property(
               "C20.unique_layout_independent", "C20.lookupNd_spec", "C20.derivedNd_spec", "C20.unbroadcastNd_roundtrip",
               "C20.helpers_depend_on_logical_array_only"],
     families=[SliceIndices(), Fcs(), Iter(), Comb(), Unbroadcast(), ViewShape(), Unique(), CatNd(), CatDerived(), Layouts()],
-    trusted_base=["numpy striding / as_strided, pandas.factorize(sort=True), CPython slice.indices (the latter validated by the slidx L0 family)"],
+    trusted_base=["numpy striding / as_strided, pandas.factorize(sort=True), CPython slice.indices (the latter validated by the slidx L0 family)",
+                  "family lay: numpy view construction (transpose / slicing / broadcast_to / byte order) — the logical array the driver sees is read back from the built array by plain indexing over np.ndindex and compared with the intended values before any helper runs"],
     assumptions=["numpy and pandas behave as their L0 models on the explored scope"],
-    rule="exhaustive small scopes per family (shapes, chunk shapes/limits, normalised slice triples, stride patterns, arrays over a 3-letter alphabet) plus seeded random beyond; non-trivial = more than one chunk / non-empty combined slice / a removed broadcast axis / >=2 values",
+    rule="exhaustive small scopes per family (shapes, chunk shapes/limits, normalised slice triples, stride patterns, arrays over a 3-letter alphabet) plus seeded random beyond; family lay: every array helper on each logical 1..3-d array under every memory layout (C, F, all axis permutations, negative strides, step-sliced views, their products with permutations, stride-0 axes, non-native byte order, read-only, random combinations); non-trivial = more than one chunk / non-empty combined slice / a removed broadcast axis / >=2 values",
 )
